@@ -249,6 +249,16 @@ func SolveAll(obls []*Obl, header string, opts SolveOpts, workers int) {
 			defer wg.Done()
 			for o := range ch {
 				o.Solve(header, opts)
+				if o.Pre != nil && o.Result == "unsat" {
+					// the path is infeasible after the call: an alarm only if it was feasible before it
+					o.Pre.Solve(header, opts)
+					if o.Pre.Result != "sat" {
+						o.Result = "unknown"
+						o.Note = "call site not shown reachable (" + o.Pre.Result + "); post-call cover inconclusive"
+					} else {
+						o.Note = "the path is feasible before the call and infeasible after it: the callee's assumed postcondition (or its model) is contradictory here"
+					}
+				}
 			}
 		}()
 	}
